@@ -17,6 +17,9 @@ import ClairModel.Proofs.IndexerFF
 import ClairModel.Proofs.ScanPar
 import ClairModel.Gen.Controller
 
+-- every variable of a property statement is bound explicitly: a misspelt name is an error, not a new variable
+set_option autoImplicit false
+
 namespace ClairModel.Props.C07
 open ClairModel ClairModel.Indexer
 
